@@ -104,6 +104,10 @@ type Exec struct {
 	Panics   []string
 	Hang     bool
 	Steps    int
+	// Diverged: the recorded prefix could not be followed (a choice was out of range, or the execution
+	// ended before the prefix was used up): some nondeterminism is not owned by the harness. The
+	// execution itself is still a real execution of the real code and is checked by the oracle.
+	Diverged bool
 }
 
 // Sched is one execution's scheduler.
@@ -249,8 +253,11 @@ func (s *Sched) choose(n int, costly bool, label string, f *File, line int) int 
 	if pos < len(s.prefix) {
 		c = s.prefix[pos]
 		if c < 0 || c >= n {
-			fmt.Printf("HARNESS-UNSOUND: replay divergence at point %d: choice %d of %d alternatives (site %s %v)\n", pos, c, n, label, f)
-			os.Exit(2)
+			// not fatal here: the explorer counts it and the run ends HARNESS-UNSOUND unless this or
+			// another (real) execution violates the property
+			s.x.Diverged = true
+			s.prefix = s.prefix[:pos]
+			c = 0
 		}
 	}
 	s.x.Points = append(s.x.Points, Point{N: n, Costly: costly, Chosen: c, Label: label, F: f, Line: line})
